@@ -189,7 +189,7 @@ fn binary_comb<T: Scalar>(kind: Kind, a: &Spec, b: &Spec, alpha: &[f64], depth: 
 
 pub fn run(ctx: &Ctx) -> CheckOutput {
     let quick = ctx.tier == Tier::Quick;
-    let (outer_ns, inner_ns, depth): (Vec<usize>, Vec<usize>, usize) = if quick { (vec![1, 2, 3, 4], vec![1, 2, 3], 7) } else { (vec![1, 2, 3, 4, 5], vec![1, 2, 3], 8) };
+    let (outer_ns, inner_ns, depth): (Vec<usize>, Vec<usize>, usize) = if quick { (vec![1, 2, 3, 4], vec![1, 2, 3], 7) } else { (vec![1, 2, 3, 4, 5, 6], vec![1, 2, 3, 4], 9) };
     let alphas: Vec<Vec<f64>> = if quick { vec![Z3.to_vec(), Z5.to_vec()] } else { vec![Z3.to_vec(), Z5.to_vec(), D4.to_vec()] };
     let mut jobs: Vec<Job> = vec![];
     for e in unary_catalogue() {
@@ -205,7 +205,7 @@ pub fn run(ctx: &Ctx) -> CheckOutput {
                             continue; // N-less inner views are covered once
                         }
                         for alpha in &alphas {
-                            let d = if alpha.len() > 3 { depth.min(if quick { 5 } else { 6 }) } else { depth };
+                            let d = if alpha.len() > 3 { depth.min(if quick { 5 } else { 7 }) } else { depth };
                             unary_chain::<f64>(e.kind, on, &inner, alpha, d, &mut st, &sink);
                         }
                     }
